@@ -137,6 +137,11 @@ def mk_data(cfg):
     else:
         data = 1 + base
     data = np.broadcast_to(data, (T, h, w, B)).astype(dt).copy()
+    if cfg.get("zeros"):
+        # 0 (the integer fill) and -1 as perfectly valid data values
+        data[:, 0::3, 1::4, :] = 0
+        if dt.kind in "if":
+            data[:, 2::5, 0::3, :] = -1
     sn = nd(cfg.get("src_nodata"))
     if sn is None:
         sn = nd(cfg.get("nodata_attr"))
@@ -456,7 +461,110 @@ def p_complete_deps(cfg):
     return True, "ok", "complete-deps"
 
 
-PREDICATES = {"equal": p_equal, "fill": p_fill, "disjoint": p_disjoint, "direct": p_direct,
+def exact_nn_reference(cfg, data):
+    """nearest neighbour between two axis-aligned grids of one CRS in exact rational arithmetic (independent of
+    odc-geo and GDAL): (expected array, mask of pixels whose centre is at least 1e-6 source pixels from a source
+    pixel edge)"""
+    from fractions import Fraction as F
+
+    sa, _, sc, _, se, sf = [F(v) for v in cfg["src_tr"]]
+    da_, _, dc, _, de, df = [F(v) for v in cfg["dst_tr"]]
+    (h, w), (H, W) = cfg["src_shape"], cfg["dst_shape"]
+    tol = F(1, 10 ** 6)
+
+    def axis(n_dst, d_res, d_off, s_res, s_off, n_src):
+        idx = np.full(n_dst, -1, dtype=np.int64)
+        safe = np.ones(n_dst, dtype=bool)
+        for i in range(n_dst):
+            p = ((d_off + (F(2 * i + 1) / 2) * d_res) - s_off) / s_res
+            k = p.numerator // p.denominator
+            fr = p - k
+            safe[i] = tol < fr < 1 - tol
+            if 0 <= k < n_src:
+                idx[i] = k
+        return idx, safe
+
+    iy, sy = axis(H, de, df, se, sf, h)
+    ix, sx = axis(W, da_, dc, sa, sc, w)
+    fill = fill_of(cfg)
+    exp = np.full((H, W), fill, dtype=data.dtype)
+    ok = (iy[:, None] >= 0) & (ix[None, :] >= 0)
+    exp[ok] = data[np.clip(iy, 0, None)[:, None], np.clip(ix, 0, None)[None, :]][ok]
+    return exp, sy[:, None] & sx[None, :]
+
+
+def p_tall(cfg):
+    """near-equal pixel sizes over thousands of rows/columns: chunked == in-memory == exact rational reference"""
+    try:
+        data, whole, chunked, sgb, dgb = run_xr(cfg)
+    except Exception as e:  # noqa: BLE001
+        return False, f"raised {type(e).__name__}: {str(e)[:200]}", "tall"
+    exp, safe = exact_nn_reference(cfg, data)
+    for name, arr in (("in-memory", whole), ("chunked", chunked)):
+        if arr.shape != exp.shape or arr.dtype != exp.dtype:
+            return False, f"{name}: shape/dtype {arr.shape} {arr.dtype}, expected {exp.shape} {exp.dtype}", "tall"
+        bad = ~((arr == exp) | ((arr != arr) & (exp != exp))) & safe
+        if bad.any():
+            y, x = [int(v[0]) for v in np.nonzero(bad)]
+            rows = np.unique(np.nonzero(bad)[0])
+            return False, (f"{name}: {int(bad.sum())} pixel(s) in {len(rows)} row(s) differ from the exact nearest-neighbour "
+                           f"reference, first at (y={y}, x={x}): expected {exp[y, x]!r} got {arr[y, x]!r}"), "tall"
+    if not same(whole, chunked):
+        return False, "chunked and in-memory differ at a pixel within 1e-6 of a source pixel edge", "tall"
+    return True, f"equal to the exact reference on {int(safe.sum())} pixel(s)", "tall"
+
+
+def p_joint(cfg):
+    """ONE lazy source reprojected several times onto the same grid with different parameters (cfg["variants"]:
+    dst_nodata and/or resampling), all results computed in a single dask.compute / as one Dataset: every result
+    equals the one computed alone, and (nearest) its own in-memory result"""
+    import dask
+    import dask.array as da
+    import xarray as xr
+    from odc.geo.xr import wrap_xr, xr_reproject
+
+    try:
+        sgb = gbox(cfg["src_shape"], cfg["src_tr"], cfg["src_crs"])
+        dgb = gbox(cfg["dst_shape"], cfg["dst_tr"], cfg["dst_crs"])
+        data = mk_data(cfg)
+        lay = cfg.get("layout", "yx")
+        time = [f"2020-01-{i + 1:02d}" for i in range(data.shape[0])] if "t" in lay else None
+        attr = nd(cfg.get("nodata_attr"))
+        xn = wrap_xr(data, sgb, time=time, nodata=attr)
+        xd = wrap_xr(da.from_array(data, chunks=full_chunks(cfg, data)), sgb, time=time, nodata=attr)
+        kws = []
+        for v in cfg["variants"]:
+            kw = {"resampling": v.get("resampling", "nearest")}
+            if v.get("dst_nodata") is not None:
+                kw["dst_nodata"] = nd(v["dst_nodata"])
+            kws.append(kw)
+        lazy = [xr_reproject(xd, dgb, chunks=tuple(cfg["dst_chunks"]), **kw) for kw in kws]
+        ckw = {"scheduler": cfg.get("scheduler", "synchronous"), "optimize_graph": bool(cfg.get("optimize", True))}
+        if cfg.get("how", "compute") == "dataset":
+            ds = xr.Dataset({f"v{i}": a for i, a in enumerate(lazy)}).compute(**ckw)
+            joint = [np.asarray(ds[f"v{i}"].values) for i in range(len(lazy))]
+        else:
+            joint = [np.asarray(a.values) for a in dask.compute(*lazy, **ckw)]
+        alone = [np.asarray(a.compute(**ckw).values) for a in lazy]
+        whole = [np.asarray(xr_reproject(xn, dgb, **kw).values) for kw in kws]
+    except Exception as e:  # noqa: BLE001
+        return False, f"raised {type(e).__name__}: {str(e)[:200]}", "joint"
+    for i, kw in enumerate(kws):
+        refs = [("computed alone", alone[i])] + ([("in-memory", whole[i])] if kw["resampling"] == "nearest" else [])
+        for name, ref in refs:
+            if not same(joint[i], ref):
+                a, b = yx_first(ref, cfg), yx_first(joint[i], cfg)
+                if a.shape != b.shape or a.dtype != b.dtype:
+                    return False, f"result {i} {kw}: shape/dtype differ from {name}", "joint"
+                bad = ~((a == b) | ((a != a) & (b != b)))
+                y, x, k = [int(v[0]) for v in np.nonzero(bad)]
+                return False, (f"result {i} {kw} computed together with {[q for j, q in enumerate(kws) if j != i]}: "
+                               f"{int(bad.sum())} pixel(s) differ from the same result {name}, first at (y={y}, x={x}, "
+                               f"plane={k}): {name} {a[y, x, k]!r} jointly {b[y, x, k]!r}"), "joint"
+    return True, f"{len(kws)} results computed jointly agree", "joint"
+
+
+PREDICATES = {"tall": p_tall, "joint": p_joint, "equal": p_equal, "fill": p_fill, "disjoint": p_disjoint, "direct": p_direct,
               "complete-deps": p_complete_deps}
 
 
@@ -600,9 +708,52 @@ def rand_same_crs(rng, kind=None, level="xr", layout=True, absent_dn=False):
            "src_chunks": [rand_chunks(rng, h), rand_chunks(rng, w)],
            "dst_chunks": [rng.choice([1, 2, 3, 4, 5, 7, H, H + 2]), rng.choice([1, 2, 3, 4, 5, 7, W, W + 2])],
            "scheduler": rng.choice(["synchronous", "synchronous", "threads"]), "optimize": rng.random() < 0.7}
+    eff = dn if dn is not None else (kw if kw is not None else attr)
+    if level == "xr" or eff is None or eff == "nan" or eff not in (0, -1):
+        # valid zeros: only kept out of the model-driven runs when 0/-1 is the effective destination nodata
+        # (GDAL then moves them to the neighbouring value, which the model's sample does not describe)
+        cfg["zeros"] = rng.random() < 0.6
     if layout:
         rand_layout(rng, cfg)
     return cfg
+
+
+def rand_tall(rng, i):
+    """tall (or wide) same-CRS pair whose pixel heights (widths) differ by a relative 1e-6..1e-3: over thousands of
+    rows the grids drift apart by up to a few pixels; source chunked along the long axis"""
+    n = rng.choice([3000, 4000])
+    m = rng.randint(1, 4)
+    if i % 4 != 3:    # drift of 1.5 .. 3 pixels over the long axis
+        rel = rng.choice([1, -1]) * rng.choice([1 / 2000, 1 / 1250, 1 / 1600])
+    else:             # at and below the snapping tolerance of snap_affine: at most a hundredth of a pixel
+        rel = rng.choice([1e-5, 2e-6, 5e-7])
+    res, crs = rng.choice([(10, "epsg:3857"), (10, "epsg:32633"), (16, "epsg:3577"), (0.25, "epsg:4326")])
+    x0, y0 = 500 * res, 9000 * res
+    # whole-pixel offset along the long axis only for the small-drift cases: an offset makes neighbouring source
+    # chunks needed anyway and hides a lost pixel of drift
+    off = (rng.choice([0, 3, -2]) if i % 4 == 3 else 0) * res
+    wide = i % 2 == 1
+    sch = rng.choice([500, 333, 640, 250, 1000])
+    # chunk boundaries of destination and source (nearly) coincide: a drift of one pixel then decides whether the
+    # neighbouring source chunk is needed
+    dch = rng.choice([sch, sch, sch // 2 if sch % 2 == 0 else sch, 2 * sch]) if i % 4 != 3 else rng.choice([250, 640, 100])
+    dtype = rng.choice(["uint8", "int16", "float32", "uint16"])
+    if wide:
+        src_shape, dst_shape = [m, n], [m, n]
+        src_tr = [res, 0, x0, 0, -res, y0]
+        dst_tr = [res * (1 + rel), 0, x0 + off, 0, -res, y0]
+        src_chunks = [[m], [min(sch, n - k) for k in range(0, n, sch)]]
+        dst_chunks = [m, dch]
+    else:
+        src_shape, dst_shape = [n, m], [n, m]
+        src_tr = [res, 0, x0, 0, -res, y0]
+        dst_tr = [res, 0, x0, 0, -res * (1 + rel), y0 - off]
+        src_chunks = [[min(sch, n - k) for k in range(0, n, sch)], [m]]
+        dst_chunks = [dch, m]
+    return {"kind": "tall", "src_shape": src_shape, "src_tr": src_tr, "src_crs": crs, "dst_shape": dst_shape,
+            "dst_tr": dst_tr, "dst_crs": crs, "dtype": dtype, "nodata_attr": None, "src_nodata": None,
+            "dst_nodata": None, "nodata_pixels": False, "zeros": False, "src_chunks": src_chunks,
+            "dst_chunks": dst_chunks, "scheduler": "synchronous", "optimize": True, "layout": "yx", "rel": rel}
 
 
 def rand_cross_crs(rng, disjoint=False, pair=None):
@@ -923,6 +1074,26 @@ def run(out, tier, scratch):
             cfg.setdefault("B", 2)
             cfg["T"], cfg["t_chunk"] = rng.choice([(3, 2), (5, 2), (5, 3), (4, 3)])
         judge("disjoint" if cfg["kind"] == "disjoint" else "equal", cfg, f"search {i}")
+    # near-equal pixel sizes over thousands of rows / columns, source chunked along the long axis
+    for i in range(8 if tier == "quick" else 60):
+        judge("tall", rand_tall(rng, i), f"tall {i}")
+    # multi-step composition: one lazy source, several parameter sets, one joint computation
+    for i in range(16 if tier == "quick" else 200):
+        cfg = rand_same_crs(rng, kind=["larger", "partial", "subpixel", "scaled"][i % 4], layout=i % 3 == 0)
+        fl = i % 4 >= 2 and cfg["dtype"] != "bool"
+        if fl:
+            cfg["dtype"] = rng.choice(["float32", "float64", "int16"])
+        pool = [0, 1] if cfg["dtype"] == "bool" else ([-1, 120, 5] if cfg["dtype"] == "int8" else [251, 0, 9, 200])
+        a, b = rng.sample(pool, 2)
+        cfg["dst_nodata"] = None
+        if i % 4 < 2:     # uncovered pixels: destination nodata differs
+            cfg["variants"] = [{"dst_nodata": a}, {"dst_nodata": b}] + ([{}] if rng.random() < 0.4 else [])
+        else:             # sub-pixel / scaled: resampling differs (and sometimes the nodata too)
+            cfg["variants"] = [{"resampling": "nearest"}, {"resampling": rng.choice(["bilinear", "average", "cubic"])}]
+            if rng.random() < 0.5:
+                cfg["variants"][1]["dst_nodata"] = a
+        cfg["how"] = rng.choice(["compute", "dataset"])
+        judge("joint", cfg, f"joint {i}")
     n_x = 40 if tier == "quick" else 600
     for i in range(n_x):
         judge("fill", rand_cross_crs(rng), f"cross-crs {i}")
